@@ -4,7 +4,7 @@
    which are finite and proved here by computation on every run. *)
 From Coq Require Import List String Ascii Bool Arith ZArith Permutation Sorted.
 From Helm Require Import Common.Assoc Common.SortUniq Text.Split Text.KindSort Text.KindSortProofs
-  Text.Classify Text.ClassifyProofs Text.Batch Text.BatchProofs Gen.KindOrder Gen.Events.
+  Text.SplitProofs Text.Classify Text.ClassifyProofs Text.Batch Text.BatchProofs Gen.KindOrder Gen.Events.
 Import ListNotations.
 Local Open Scope string_scope.
 
@@ -243,6 +243,56 @@ Theorem C08_returns_after_all_results :
 Proof. exact returns_after_all_results. Qed.
 Print Assumptions C08_returns_after_all_results.
 
+(* the model is not vacuous: while perform has not returned some thread can move (no
+   deadlock), and from every reachable state perform can still return *)
+Theorem C08_no_deadlock :
+  forall (kinds : list string) (fails : nat -> bool) (sched : list choice),
+    returned (run kinds fails sched) = false ->
+    exists c, step kinds fails (run kinds fails sched) c <> run kinds fails sched.
+Proof. exact no_deadlock. Qed.
+Print Assumptions C08_no_deadlock.
+
+Theorem C08_can_always_return :
+  forall (kinds : list string) (fails : nat -> bool) (sched : list choice),
+    exists sched', returned (run kinds fails (sched ++ sched')%list) = true.
+Proof. exact can_always_return. Qed.
+Print Assumptions C08_can_always_return.
+
+(* ------------------------------------------------------------------------------------
+   C08_split_join (string level): a stream
+       lead  d  (w1 "\n---" w2  d')*  trail
+   of documents that are non-empty, trimmed ([trim_left d = d /\ trim_right d = d], i.e.
+   TrimSpace d = d, see C08_trimmed_iff) and have no line starting with "---"
+   ([dashes3 d = None] for the first line, [has_sep d = false] for the others), with w1, w2,
+   trail and the lead arbitrary runs of RE2 white space (space, tab, CR, LF, FF: blank
+   lines, trailing spaces, CRLF) and an optional leading "---" line, is split into exactly
+   those documents: nothing lost, duplicated or altered.
+   ------------------------------------------------------------------------------------ *)
+Theorem C08_split_join :
+  forall (lw : string) (lm : option string) (d : string) (rest : list sepdoc) (trail : string),
+    re_space_str lw = true /\ match lm with Some w0 => re_space_str w0 = true | None => True end ->
+    (d <> "" /\ trim_left d = d /\ trim_right d = d /\ dashes3 d = None /\ has_sep d = false) ->
+    Forall (fun x => re_space_str (sd_w1 x) = true /\ re_space_str (sd_w2 x) = true /\
+                     (sd_doc x <> "" /\ trim_left (sd_doc x) = sd_doc x /\ trim_right (sd_doc x) = sd_doc x /\
+                      dashes3 (sd_doc x) = None /\ has_sep (sd_doc x) = false)) rest ->
+    re_space_str trail = true ->
+    split_manifests ((lw ++ match lm with Some w0 => "---" ++ w0 | None => "" end)
+                     ++ d ++ tail_text rest ++ trail) = d :: map sd_doc rest.
+Proof. exact split_join. Qed.
+Print Assumptions C08_split_join.
+
+Theorem C08_split_blank :
+  forall (lw : string) (lm : option string) (trail : string),
+    re_space_str lw = true /\ match lm with Some w0 => re_space_str w0 = true | None => True end ->
+    re_space_str trail = true ->
+    split_manifests ((lw ++ match lm with Some w0 => "---" ++ w0 | None => "" end) ++ trail) = [].
+Proof. exact split_blank. Qed.
+Print Assumptions C08_split_blank.
+
+Theorem C08_trimmed_iff : forall d, trim_space d = d <-> trim_left d = d /\ trim_right d = d.
+Proof. exact trim_space_fixed. Qed.
+Print Assumptions C08_trimmed_iff.
+
 (* ---- non-vacuity ------------------------------------------------------------------- *)
 Definition nl : string := String (byte 10) "".
 
@@ -292,3 +342,26 @@ Example C08_barrier_inhabited :
   failed s = [1] /\ batch_ids ["A"; "A"; "B"] = [1; 1; 2].
 Proof. vm_compute. repeat split; reflexivity. Qed.
 Print Assumptions C08_barrier_inhabited.
+
+(* the hypotheses of C08_split_join are met by a CRLF stream with a leading marker, blank
+   lines, trailing spaces and unicode text; the conclusion is also checked by evaluation *)
+Definition cr : string := String (byte 13) "".
+Definition ex_d1 : string := "a: 1" ++ cr ++ nl ++ "b: h" ++ String (byte 195) (String (byte 169) "llo").
+Definition ex_rest : list sepdoc :=
+  [ mkSepDoc (" " ++ cr) (" " ++ cr ++ nl ++ nl) ("# only a comment");
+    mkSepDoc "" "" ("kind: X" ++ nl ++ "x: a --- b" ++ nl ++ " ---: indented") ].
+
+Example C08_split_join_inhabited :
+  (ex_d1 <> "" /\ trim_left ex_d1 = ex_d1 /\ trim_right ex_d1 = ex_d1 /\ dashes3 ex_d1 = None /\ has_sep ex_d1 = false) /\
+  Forall (fun x => re_space_str (sd_w1 x) = true /\ re_space_str (sd_w2 x) = true /\
+                   (sd_doc x <> "" /\ trim_left (sd_doc x) = sd_doc x /\ trim_right (sd_doc x) = sd_doc x /\
+                    dashes3 (sd_doc x) = None /\ has_sep (sd_doc x) = false)) ex_rest /\
+  split_manifests ((nl ++ match Some (cr ++ nl) with Some w0 => "---" ++ w0 | None => "" end)
+                   ++ ex_d1 ++ tail_text ex_rest ++ (cr ++ nl ++ "  ")) = ex_d1 :: map sd_doc ex_rest.
+Proof.
+  split; [|split].
+  - repeat split; try reflexivity. discriminate.
+  - repeat constructor; try reflexivity; discriminate.
+  - vm_compute. reflexivity.
+Qed.
+Print Assumptions C08_split_join_inhabited.
